@@ -52,28 +52,33 @@ def refCompressInto (t : Table) (xs : List UInt8) (cap : Nat) : Option (List UIn
 /-! ### Decompress -/
 
 /-- one entry of `m_apDecodeLut`: walk at most `k` bits of `bits` from `nd`, stop at a leaf -/
-def lutWalk (t : Table) : Nat → Nat → Nat → Nat
+def lutWalkF (look : Look) : Nat → Nat → Nat → Nat
   | 0, nd, _ => nd
   | k + 1, nd, bits =>
-    let nd' := child t nd (bits % 2 == 1)
-    if nd' < NUM_SYMBOLS then nd' else lutWalk t k nd' (bits / 2)
+    let nd' := childF look nd (bits % 2 == 1)
+    if nd' < NUM_SYMBOLS then nd' else lutWalkF look k nd' (bits / 2)
 
 def LUTBITS : Nat := 10
 def LUTSIZE : Nat := 1024
 
-def lut (t : Table) (i : Nat) : Nat := lutWalk t LUTBITS ROOT_IDX i
-
-/-- number of bits `lutWalk` consumed before it stopped at a leaf (`LUTBITS` if it did not) -/
-def lutDepth (t : Table) : Nat → Nat → Nat → Nat
+/-- number of bits `lutWalkF` consumed before it stopped at a leaf (`k` if it did not) -/
+def lutDepthF (look : Look) : Nat → Nat → Nat → Nat
   | 0, _, _ => 0
   | k + 1, nd, bits =>
-    let nd' := child t nd (bits % 2 == 1)
-    if nd' < NUM_SYMBOLS then 1 else 1 + lutDepth t k nd' (bits / 2)
+    let nd' := childF look nd (bits % 2 == 1)
+    if nd' < NUM_SYMBOLS then 1 else 1 + lutDepthF look k nd' (bits / 2)
+
+def lutWalk (t : Table) : Nat → Nat → Nat → Nat := lutWalkF (node t)
+def lutDepth (t : Table) : Nat → Nat → Nat → Nat := lutDepthF (node t)
+def lut (t : Table) (i : Nat) : Nat := lutWalk t LUTBITS ROOT_IDX i
+
+def lutOkAtF (look : Look) (i : Nat) : Bool :=
+  decide (lutWalkF look LUTBITS ROOT_IDX i < NUM_SYMBOLS →
+    symLenF look (lutWalkF look LUTBITS ROOT_IDX i) = lutDepthF look LUTBITS ROOT_IDX i)
 
 /-- the table entry's `m_NumBits` is the depth at which the lookup found it (true of any table
 whose codes were assigned by `Setbits_r`; decidable, checked for the built-in table) -/
-def LutOk (t : Table) : Prop :=
-  ∀ i, i < LUTSIZE → lut t i < NUM_SYMBOLS → symLen t (lut t i) = lutDepth t LUTBITS ROOT_IDX i
+def LutOk (t : Table) : Prop := ∀ i, i < LUTSIZE → lutOkAtF (node t) i = true
 
 instance (t : Table) : Decidable (LutOk t) := by unfold LutOk; exact inferInstance
 
@@ -105,26 +110,33 @@ def refDeep (t : Table) : Nat → Nat → Nat → Nat → DeepRes
     else if bc' = 0 then .error
     else refDeep t fuel nd' bits' bc'
 
+/-- `{D}` onwards of one iteration: `nd` is the table entry; `k` continues the loop -/
+def refBody (t : Table) (cap : Nat) (k : Nat → Nat → List UInt8 → RefDec)
+    (nd bits bc : Nat) (out : List UInt8) : RefDec :=
+  let fin (nd bits bc : Nat) : RefDec :=
+    if nd = EOF then .ok out.reverse
+    else if out.length ≥ cap then .error
+    else k bits bc (UInt8.ofNat nd :: out)
+  if nd < NUM_SYMBOLS then
+    fin nd (bits / 2 ^ symLen t nd) (wrapSub bc (symLen t nd))
+  else
+    match refDeep t NUM_NODES nd (bits / 2 ^ LUTBITS) (wrapSub bc LUTBITS) with
+    | .leaf nd bits bc => fin nd bits bc
+    | .error => .error
+    | .diverge => .diverge
+
+/-- the table entry used in this iteration: looked up at `{A}` from the old buffer when it already
+held `LUTBITS` bits, otherwise at `{C}` after the refill -/
+def refNode (t : Table) (oldBits oldBc newBits : Nat) : Nat :=
+  if oldBc ≥ LUTBITS then lut t (oldBits % LUTSIZE) else lut t (newBits % LUTSIZE)
+
 /-- the `while(1)` loop of `CHuffman::Decompress` (`out` reversed) -/
 def refLoop (t : Table) (cap : Nat) : Nat → Nat → Nat → List UInt8 → List UInt8 → RefDec
   | 0, _, _, _, _ => .diverge
   | fuel + 1, bits, bc, src, out =>
-    let pre : Option Nat := if bc ≥ LUTBITS then some (lut t (bits % LUTSIZE)) else none
-    let (bits, bc, src) := refFill bits bc src
-    let nd := match pre with
-      | some n => n
-      | none => lut t (bits % LUTSIZE)
-    let fin (nd bits bc : Nat) : RefDec :=
-      if nd = EOF then .ok out.reverse
-      else if out.length ≥ cap then .error
-      else refLoop t cap fuel bits bc src (UInt8.ofNat nd :: out)
-    if nd < NUM_SYMBOLS then
-      fin nd (bits / 2 ^ symLen t nd) (wrapSub bc (symLen t nd))
-    else
-      match refDeep t NUM_NODES nd (bits / 2 ^ LUTBITS) (wrapSub bc LUTBITS) with
-      | .leaf nd bits bc => fin nd bits bc
-      | .error => .error
-      | .diverge => .diverge
+    let f := refFill bits bc src
+    refBody t cap (fun b c o => refLoop t cap fuel b c f.2.2 o)
+      (refNode t bits bc f.1) f.1 f.2.1 out
 
 /-- `CHuffman::Decompress(pInput, InputSize, pOutput, OutputSize = cap)`; `error` is `-1` -/
 def refDecompress (t : Table) (fuel : Nat) (input : List UInt8) (cap : Nat) : RefDec :=
